@@ -18,7 +18,7 @@ Judge ==
   /\ LET ok == RoundTrip(Recs[i].tree, Recs[i].first, Recs[i].rest) IN
        /\ state' = IF ok THEN "accepted" ELSE "reject"
        /\ IF ~ok THEN PrintT(ToJson([reject |-> Recs[i].id, why |-> "parsed-tree-is-not-the-rendered-program",
-                                      parsed |-> ToQuery(Recs[i].tree.first), program |-> NormQ(Recs[i].first)])) ELSE TRUE
+                                      parsed |-> AssocQ(ToQuery(Recs[i].tree.first)), program |-> AssocQ(NormQ(Recs[i].first))])) ELSE TRUE
   /\ UNCHANGED i
 Next == Judge
 Spec == Init /\ [][Next]_vars /\ WF_vars(Next)
